@@ -59,6 +59,8 @@ def _case(rng, fam, gseed, cfgd):
         cfgd["lamb_init"] = float(10.0 ** rng.uniform(-3, 2))
     if fam == "UNB" and rng.random() < 0.5:
         cfgd["obj_lower_limit"] = -1e3
+    if rng.random() < 0.25:
+        cfgd.update(C.rare_params(rng, allow_unvalidated=True))
     case = work.mk_case(fam, gseed, cfgd)
     case["log"] = str(rng.choice(["CRITICAL", "INFO", "DEBUG"], p=[0.5, 0.2, 0.3]))
     case["display_interval"] = float(rng.choice([0.0, 0.1]))
